@@ -478,7 +478,7 @@ func checkScanTotals(r *Run, p *packages.Package) {
 			})
 		}
 	}
-	r.Floor("C18-R4-scan-total", 2)
+	r.Floor("C18-R4-scan-total", 1) // the node and the relationship scan may share one generic scan call
 	r.Floor("C18-R5-zero-is-an-id", 1)
 }
 
